@@ -13,6 +13,11 @@ let run (line : string) : string =
         reg := st;
         match o with RegOk _ -> "ok1" | RegPanicInit -> "panic" | RegPanicInvalid -> "panic") hs in
       String.concat " " obs ^ " | " ^ String.concat " " (List.map hex_of_bytes (all_tags !reg))
+  | "R" :: h :: _ ->
+      (* Refresh: init = true; a registration while live panics; Destroy: init = false *)
+      let live = { reg_init = true; reg_tags = !reg.reg_tags } in
+      let (_, o) = register_tag live (bytes_of_hex h) in
+      (match o with RegOk _ -> "accepted-while-live" | _ -> "panic") ^ " | " ^ String.concat " " (List.map hex_of_bytes (all_tags !reg))
   | "b" :: m :: s :: a :: _ ->
       (match build_tag (bytes_of_hex m) (bytes_of_hex s) (bytes_of_hex a) with
        | None -> "panic"
